@@ -22,6 +22,22 @@ import vlib
 PROP_MODULE = "GomlVerif.Props.GoCompile"
 SEM_FUEL = "400000"
 
+# how `InGoFragment` grew, stage by stage (quick tier, seed 1, 6 150 real functions; measured when the stage
+# was committed).  The numbers of the current run are under "InGoFragment"; this table is the record the
+# design document quotes.
+FRAGMENT_HISTORY = [
+    {"stage": "(a) scalars, let/if/while, calls, printing builtins", "inside_percent": 16, "functions": 6098},
+    {"stage": "+ struct values (user structs, closure environments)", "inside": 2891, "functions": 6150,
+     "first_reasons_outside": {"enum parameter": 837, "closure env with non-admitted field": 437, "call:ref": 291,
+                               "callee outside": 189, "ref parameter": 137, "enum result": 127, "tuple result": 123,
+                               "node:tuple": 118, "node:match": 112}},
+    {"stage": "+ enum values, match (type switch / value switch / unit), tags, payload reads in arms", "inside": 3801,
+     "functions": 6150,
+     "first_reasons_outside": {"call:ref": 374, "closure env with ref field": 300, "node:tuple": 218,
+                               "callee outside": 209, "ref parameter": 138, "tuple result": 128, "node:array": 108,
+                               "tuple parameter": 95, "array parameter": 83, "array result": 79}},
+]
+
 
 def _model_chunk(lines):
     p = subprocess.run(["bash", "-c", f"ulimit -s unlimited; exec {vlib.MODEL} gocomp"], input="\n".join(lines) + "\n",
@@ -185,6 +201,7 @@ def evaluate(ctx):
         "functions": fn,
         "InGoFragment": dict(frag, outside=frag["functions"] - frag["inside"],
                              reasons_outside=dict(sorted(reasons.items(), key=lambda kv: -kv[1]))),
+        "InGoFragment_history": FRAGMENT_HISTORY,
         "behaviour_oracle(anf vs go)": b,
         "samples": samples or [{"id": "none"}],
         "impl_oracle_failures": len(found),
